@@ -846,7 +846,10 @@ class Interp:
             c, a, b = ia.args
             if all(x.single_atom() is not None and x.single_atom().kind in ('list', 'tuple') for x in (a, b)):
                 return self._for_split(st, fr, c, a, b)
-        if ia is not None and ia.kind in ('list', 'tuple') and len(ia.args) <= 4 and not st.orelse and \
+        # (a literal table of rows -- tuples / lists -- is unrolled up to 24 rows, like a literal dictionary)
+        is_table = ia is not None and ia.kind in ('list', 'tuple') and len(ia.args) <= 24 and ia.args and all(
+            x.single_atom() is not None and x.single_atom().kind in ('tuple', 'list') for x in ia.args)
+        if ia is not None and ia.kind in ('list', 'tuple') and (len(ia.args) <= 4 or is_table) and not st.orelse and \
                 not any(isinstance(n, (ast.Break, ast.Continue)) for b_ in st.body for n in ast.walk(b_)):
             return self._for_unrolled(st, fr, list(ia.args))
         # for x in (a, b, ...): if test(x): S; break  [else: E]   ==   if test(a): S(a) elif test(b): S(b) ... else: E
